@@ -6,6 +6,7 @@ import AskarModel.Model.Spec
 import AskarModel.Lemmas.Refine
 import AskarModel.Model.SqlShape
 import AskarModel.Generated.Stmts
+import AskarModel.Generated.Flags
 import AskarModel.Generated.StmtsPg
 
 namespace Askar.Store
@@ -96,5 +97,25 @@ theorem pg_stmt_profile_scoped :
     (∀ s ∈ [Sql.GeneratedPg.countQuery, Sql.GeneratedPg.scanQuery, Sql.GeneratedPg.fetchQuery, Sql.GeneratedPg.fetchQueryUpdate,
             Sql.GeneratedPg.deleteQuery, Sql.GeneratedPg.deleteAllQuery, Sql.GeneratedPg.updateQuery], s.profileScoped = true) ∧
     Sql.GeneratedPg.insertQuery.cols.head? = some ("profile_id", 1) := by decide
+
+/-! ### D7's repair, backend by backend (flags re-extracted from the CURRENT source on every run) -/
+
+/-- what a handle does WITHOUT the eviction, for every database, handle and name: the removed profile still resolves, to the
+    id and key the handle remembered (with eviction it does not: `cache_coherent_remove` + `removed_profile_not_found`) -/
+theorem remove_without_eviction_still_resolves (db : Db) (h : Handle) (name : String) (pid key : Nat)
+    (hc : cacheGet h.cache name = some (pid, key)) :
+    resolve (removeProfile db h name false).1.1 (removeProfile db h name false).1.2 name = .ok (⟨pid, key⟩, h) := by
+  have h2 : (removeProfile db h name false).1.2 = h := by
+    unfold removeProfile; cases db.profiles.find? (·.name == name) <;> simp
+  rw [h2]; unfold resolve; rw [hc]
+
+/-- the SQLite backend's `remove_profile` evicts — what the model (`evictOnRemove`) and every theorem above assume -/
+theorem sqlite_remove_profile_evicts_as_modelled :
+    Askar.Generated.Flags.removeProfileEvictsSqlite = evictOnRemove := by decide
+
+/-- the POSTGRES backend's `remove_profile` does NOT evict in the current source (finding D43, a fact about the source text —
+    there is no server to replay on): `remove_without_eviction_still_resolves` applies to it.  When the source is repaired
+    this obligation breaks and must be turned round. -/
+theorem pg_remove_profile_keeps_cache_entry : Askar.Generated.Flags.removeProfileEvictsPg = false := by decide
 
 end Askar.Store
